@@ -575,7 +575,7 @@ def _mask_family(tier, seed):
     return out
 
 
-@harness(props=["C02", "C04", "C08"], strength="E", family=_mask_family,
+@harness(props=["C01", "C02", "C04", "C08"], strength="E", family=_mask_family,
          functions=[StandardLengthType.encode_into_pdu, StandardLengthType.decode_from_pdu,
                     StandardLengthType.get_static_bit_length, StandardLengthType._StandardLengthType__apply_mask,
                     StandardLengthType._StandardLengthType__unapply_mask,
@@ -603,7 +603,7 @@ def standard_length_with_bit_mask(n, bit_mask, bp, hl, condensed):
     except Exception:
         H.check("C04:what-the-encoder-accepts-decodes", False)
         return
-    H.check("C04:accepted-value-decodes-back-no-bits-dropped-silently", back == v)
+    H.check("C01,C04:accepted-value-decodes-back-no-bits-dropped-silently", back == v)
     static = dct.get_static_bit_length()
     occupied = 8 * (es.cursor_byte_position - cur)
     H.check("C08:static-bit-length-is-what-the-encoding-occupies",
